@@ -53,6 +53,8 @@ func c12Grammars(sw *sweeper, tier string) []*gram.Grammar {
 	id := gram.Mk("S: id S | id eq id")
 	id.Lex = []gram.LexDef{{Name: "id", Kind: "tok", P: gram.Seq(gram.Rng('a', 'c'), gram.Rep(gram.Rng('a', 'c')))}, {Name: "eq", Kind: "tok", P: gram.Lit('=')}, {Name: "!ws", Kind: "ign", P: gram.Lit(' ')}}
 	gs = append(gs, id)
+	// more than 255 terminals and more than 255 productions (numbers that no longer fit one byte in an encoded table)
+	gs = append(gs, gram.S6()[0])
 	return gs
 }
 
